@@ -534,7 +534,7 @@ AWKWARD_BOOL = ["a b", "a;b", 'q"t', "a#b", "#", "1x", "Int", "Real", ".def_0", 
 AWKWARD_INT = ["i j", "2i", ".def_2", "Bool"]
 
 
-from .c07 import fnames_profile, letbinder_profile  # noqa: E402
+from .c07 import fnames_profile, letbinder_profile, ascii_names_profile  # noqa: E402
 
 
 def names_profile(env, with_parens=True):
@@ -627,7 +627,7 @@ def qorder_profile(env):
 
 def smtstr_profile(env):
     """strings whose SMT-LIB spelling needs escaping (outside the HR fragment)"""
-    return P.str_profile(env, strs=("", 'a"b', '""', "a b", "|", "\\x", ";", "a\\\\b", "\\"), ints=(0, -1))
+    return P.str_profile(env, strs=("", 'a"b', '""', "a b", "|", "\\x", ";", "a\\\\b", "\\", "\\u{41}", "\\u0041"), ints=(0, -1))
 
 
 def _names(*ns):
@@ -709,6 +709,7 @@ def parts(ctx):
       top_ops=lambda o: o.name.startswith(("forall", "exists")))
     A(name="fnames-d3", profile=fnames_profile, depth=3, shards=8, dom={INT: (0, 1)},
       top_ops=lambda o: o.name == "dup")
+    A(name="ascii-names-d1", profile=ascii_names_profile, depth=1, shards=8, hr=False)
     A(name="names-d2", profile=names_profile, depth=2, shards=8 if q else 32, dom={INT: (0, 1)},
       mid_ops=_not_named("and") if q else None, max_new=1 if q else None)
     if not q:
